@@ -1,4 +1,6 @@
 """C13 — a quantity's magnitude is immutable and comparisons follow magnitude."""
+import math
+
 from vlib.common import Corr, Failure, f2b, import_repo
 
 ID = 'C13'
@@ -181,6 +183,39 @@ def search(chk, broken):
             if f(q, s) != f(q.raw_value, s.raw_value) or f(q, y) != f(q.raw_value, y):
                 chk.failures.append(Failure('compare', f'{name} between {q!r} and {s!r} / {y} does not follow raw magnitude',
                                             {'op': 'compare', 'cmp': name}))
+        # near-equal but distinct magnitudes (neighbouring floats, the same nominal value written in two units): == / != / hash / ordering
+        # must still follow the magnitudes exactly (no tolerance), trichotomy must hold, equal quantities must hash alike
+        k = rng.choice([1.0, 3.0, 7.0, 25.0, float(rng.randint(1, 59)), rng.uniform(0.1, 50)])
+        near = [(u(k), v(u(k) >> v)), (u(k), u(math.nextafter(k, math.inf))), (v(k), v(math.nextafter(k, -math.inf)))]
+        if d == 'Distance':
+            near.append((pbc.Unit.Meter(k), pbc.Unit.Centimeter(k * 100)))
+        for a, b in near:
+            evals += 1
+            ra, rb = a.raw_value, b.raw_value
+            bad = [name for name, f in CMPS.items() if f(a, b) != f(ra, rb) or f(a, rb) != f(ra, rb)]
+            tri = sum([bool(a < b), bool(a == b), bool(a > b)])
+            if bad or tri != 1 or (a == b and hash(a) != hash(b)):
+                chk.failures.append(Failure('compare-near-equal', f'{a!r} (raw {ra!r}) vs {b!r} (raw {rb!r}): comparisons {bad} do not follow the magnitudes; '
+                                                                  f'{tri} of (<, ==, >) hold; equal={a == b}, hashes equal={hash(a) == hash(b)}',
+                                            {'op': 'compare-near', 'a': repr(a), 'b': repr(b), 'raw_a': ra, 'raw_b': rb, 'wrong': bad, 'trichotomy_count': tri}))
+        # a quantity of ANOTHER dimension with the same magnitude, read in a unit this one was just read in, must still raise
+        d2 = rng.choice([x for x in DIMS if x != d])
+        raw_u = next((t for t in ubd[d2] if t(1.0).raw_value == 1.0 and t(0.0).raw_value == 0.0), None)
+        if raw_u is not None:
+            own = rng.choice(ubd[d])
+            q >> own
+            q.get_in(own)
+            twin = raw_u(q.raw_value)
+            evals += 1
+            for how, f in (('>>', lambda: twin >> own), ('get_in', lambda: twin.get_in(own))):
+                try:
+                    val = f()
+                    chk.failures.append(Failure('foreign-unit-after-read', f'{d2} quantity {twin!r} read with {how} in {own.name} (a {d} unit) returned {val!r} after a {d} quantity '
+                                                                           f'of the same magnitude had been read in that unit',
+                                                {'op': 'foreign-after-read', 'first': repr(q), 'second': repr(twin), 'unit': own.name, 'returned': val}))
+                    break
+                except pbc.UnitConversionError:
+                    pass
         # foreign unit
         f_u = rng.choice([t for t in allu if t not in ubd[d]])
         try:
